@@ -152,6 +152,16 @@ func genModeOp(u universe, m *mTracker, c string, uniq *int, choose func(int) in
 			} else if last {
 				sign(false)
 				modes.WriteByte('k')
+				// servers send something with -k: the key, a placeholder, or a key
+				// that is no longer current.  Whatever it is, the key is removed
+				switch choose(4) {
+				case 1:
+					args = append(args, "*")
+				case 2:
+					args = append(args, fmt.Sprintf("key%d", *uniq))
+				case 3:
+					args = append(args, "not-the-key")
+				}
 			}
 		case 3:
 			if choose(2) == 0 {
